@@ -1072,6 +1072,11 @@ func (client *client) publishHandler(pub *packets.Publish) *codes.Error {
 			}
 			err = srv.hooks.OnMsgArrived(context.Background(), client, req)
 			msg = req.Message
+			// a hook that rewrites the topic of the message but leaves the default iteration options alone
+			// expects the message to be matched by its new topic.
+			if msg != nil && req.IterationOptions.TopicName == opts.TopicName {
+				req.IterationOptions.TopicName = msg.Topic
+			}
 			opts = req.IterationOptions
 		}
 		if msg != nil && err == nil {
